@@ -38,9 +38,16 @@ CLAIMS = {
          "Lean-verified closure checker per query + differential correspondence"),
  "C09": ("other", "6.C09", "Partial: get_dla_dim == size of the Lean-verified closure (n<=6) and == dimension of the reported name (Lean dimension function, any n to 10/14 qubits).",
          "Lean-verified closure size + name-dimension arithmetic per input + differential correspondence"),
+ "C10": ("proof", "6.C10", "Lean refinement proof, parametric in the classifier: abstract state = list of generators, abstract step = the plain list edit; invariant "
+         "'cache empty or = classify(current list)' is kept by every one of the 9 public edits with every argument (error exits included) and by every query; "
+         "hence along EVERY finite history of edits and queries each answer equals the answer of a freshly built collection (C10_history), read-only queries "
+         "change nothing, no edit loses a string other than the named one (C10_lossless, per edit), a copy is a fresh collection. `sort` keeps the cache: sound iff "
+         "the classifier is order-independent — explicit hypothesis, shown necessary in Lean. Model tied to the code by exact comparison of the state after "
+         "each edit and of 20 kinds of query answers on random histories; independently the implementation is compared with a freshly built collection.",
+         "Lean refinement/invariant proof over edit-query histories + differential correspondence of histories"),
 }
 PENDING = {}
-ACTIVE = ["C04", "C18", "C17", "C14", "C01", "C02", "C08", "C09"]
+ACTIVE = ["C04", "C18", "C17", "C14", "C01", "C02", "C08", "C09", "C10"]
 def main():
     props = [json.loads(l) for l in open(os.path.join(V, "properties.jsonl"))]
     checks, na = [], []
